@@ -14,11 +14,16 @@
 (*      alternation of enter/leave follows.                                 *)
 (*      Shape "H" is tree A with widget 2 (and so its child 4) left out of  *)
 (*      the frame: focus on an undrawn widget, and the refocus at a frame.  *)
+(*      Shape "P" is a tab view: the root draws page 2 (layout 1) or page 3 *)
+(*      (layout 2) at the same place, and the page drawn wraps the shared   *)
+(*      leaf 4: frames may switch the layout under a resting pointer.       *)
+(* MC_Routing_fastpath.cfg: the hit list is kept when the deepest hit is    *)
+(* unchanged; must be refuted on shape "P".                                 *)
 (* MC_Routing_asfound.cfg switches the transcription to the code as found;  *)
 (* MC_Routing_staletarget.cfg to a dispatch whose target is the end of the  *)
 (* path; TLC must refute Conforms in both.                                  *)
 EXTENDS Integers, Sequences, FiniteSets, TLC
-CONSTANTS StalePath, AllSiblings, EnterOnFocusIn, StaleTarget, Depth, Shapes
+CONSTANTS StalePath, AllSiblings, EnterOnFocusIn, StaleTarget, FastPath, Depth, Shapes
 
 R == INSTANCE Routing
 I == INSTANCE RoutingImpl
@@ -29,16 +34,23 @@ vars == <<T, im, st, n, why>>
 G(x, y, w, h, z) == [x |-> x, y |-> y, w |-> w, h |-> h, z |-> z, hid |-> FALSE]
 
 (* 1 -> {2 -> {4}, 3}; 3 overlaps 2 (and 4) and is above it *)
-TreeA(caps) == [n |-> 4, parent |-> <<0, 1, 1, 2>>, caps |-> caps,
+TreeA(caps) == [n |-> 4, pars |-> <<<<0, 1, 1, 2>>>>, caps |-> caps,
                 lays |-> <<<<G(0, 0, 8, 4, 0), G(1, 1, 4, 3, 0), G(3, 1, 4, 2, 1), G(1, 0, 3, 2, 0)>>>>]
 (* tree A in a layout that does not draw 2 (nor, hence, its child 4) *)
 TreeH(caps) == [TreeA(caps) EXCEPT !.lays[1][2].hid = TRUE]
 (* a chain 1 -> 2 -> 3 *)
-TreeB(caps) == [n |-> 3, parent |-> <<0, 1, 2>>, caps |-> SubSeq(caps, 1, 3),
+TreeB(caps) == [n |-> 3, pars |-> <<<<0, 1, 2>>>>, caps |-> SubSeq(caps, 1, 3),
                 lays |-> <<<<G(0, 0, 6, 3, 0), G(1, 1, 4, 2, 0), G(1, 0, 2, 2, 0)>>>>]
+(* the root shows page 2 or page 3 on the same rectangle; the page shown holds leaf 4 *)
+GH(x, y, w, h, z) == [G(x, y, w, h, z) EXCEPT !.hid = TRUE]
+TreeP(caps) == [n |-> 4, pars |-> <<<<0, 1, 1, 2>>, <<0, 1, 1, 3>>>>, caps |-> caps,
+                lays |-> << <<G(0, 0, 8, 4, 0), G(1, 1, 6, 3, 0), GH(1, 1, 6, 3, 0), G(1, 1, 3, 2, 0)>>,
+                            <<G(0, 0, 8, 4, 0), GH(1, 1, 6, 3, 0), G(1, 1, 6, 3, 0), G(1, 1, 3, 2, 0)>> >>]
 Points == {<<0, 0>>, <<1, 1>>, <<2, 1>>, <<4, 2>>, <<6, 2>>, <<9, 9>>}
 
-Trees == {CASE s = "A" -> TreeA(c) [] s = "H" -> TreeH(c) [] OTHER -> TreeB(c) : s \in Shapes, c \in [1..4 -> BOOLEAN]}
+(* on the tab view only the pages' capture bits matter (root and leaf do not capture) *)
+Trees == {CASE s = "A" -> TreeA(c) [] s = "H" -> TreeH(c) [] s = "P" -> TreeP([c EXCEPT ![1] = FALSE, ![4] = FALSE]) [] OTHER -> TreeB(c) :
+            s \in Shapes, c \in [1..4 -> BOOLEAN]}
 
 Consumers(t) == {<<>>} \cup {<<w, ph>> : w \in 1..t.n, ph \in {"cap", "tgt", "bub"}}
 
@@ -59,13 +71,14 @@ Next ==
   /\ \/ \E c \in Consumers(T) : Do([t |-> "key", cls |-> "ka"], I!Key(T, im, "ka", c, 0))
      \/ \E f \in 1..T.n : Do([t |-> "key", cls |-> "kF"], I!Key(T, im, "kF", <<>>, f))
      \/ \E p \in Points, c \in Consumers(T) :
-          Do([t |-> "mouse", cls |-> "mp0", x |-> p[1], y |-> p[2]], I!Mouse(T, im, T.lays[1], p[1], p[2], "mp0", c))
+          Do([t |-> "mouse", cls |-> "mp0", x |-> p[1], y |-> p[2]], I!Mouse(T, im, p[1], p[2], "mp0", c))
      \/ Do([t |-> "tfout", cls |-> "tfout"], I!TFocusOut(im))
      \/ Do([t |-> "tfin", cls |-> "tfin"], I!TFocusIn(im))
-     \/ \* a frame (forced by a redraw nobody else sees)
-        LET fr == I!Frame(T, im)
-            e  == [items |-> <<[w |-> 0, ph |-> "", cls |-> "draw", ret |-> I!Nil]>> \o fr.offers, lay |-> 1, full |-> -1]
-        IN /\ why' = R!FrameWhy(T, st, e) /\ st' = R!FrameNext(st, e) /\ im' = fr.im
+     \/ \* a frame (forced by a redraw nobody else sees) drawn from any of the layouts
+        \E k \in 1..Len(T.lays) :
+        LET fr == I!Frame(T, im, k)
+            e  == [items |-> <<[w |-> 0, ph |-> "", cls |-> "draw", ret |-> I!Nil]>> \o fr.offers, lay |-> k, full |-> -1]
+        IN /\ why' = R!FrameWhy(T, st, e) /\ st' = R!FrameNext(T, st, e) /\ im' = fr.im
 
 Spec == Init /\ [][Next]_vars
 
@@ -75,24 +88,26 @@ Conforms == why = ""
 (* (1) oracle sanity, evaluated in every reached state for every widget/point *)
 Seq2Set(s) == {s[i] : i \in 1..Len(s)}
 RouteSane ==
-  \A f \in 1..T.n :
-    LET ch == R!PathTo(T, f)
-        rt == R!Route(T, ch)
+  \A k \in 1..Len(T.lays) : \A f \in 1..T.n :
+    LET t  == R!At(T, k)
+        ch == R!PathTo(t, f)
+        rt == R!Route(t, ch)
         of(ph) == SelectSeq(rt, LAMBDA r : r.ph = ph)
     IN /\ ch[1] = 1 /\ ch[Len(ch)] = f
-       /\ \A i \in 2..Len(ch) : T.parent[ch[i]] = ch[i - 1]
+       /\ \A i \in 2..Len(ch) : t.parent[ch[i]] = ch[i - 1]
        /\ Len(of("tgt")) = 1 /\ of("tgt")[1].w = f
        /\ \A i \in 1..Len(of("bub")) : of("bub")[i].w = ch[Len(ch) - i]
        /\ Len(of("bub")) = Len(ch) - 1
        /\ \A i \in 1..Len(of("cap")) : T.caps[of("cap")[i].w]
-       /\ \A i, j \in 1..Len(of("cap")) : i < j => Len(R!PathTo(T, of("cap")[i].w)) <= Len(R!PathTo(T, of("cap")[j].w))
+       /\ \A i, j \in 1..Len(of("cap")) : i < j => Len(R!PathTo(t, of("cap")[i].w)) <= Len(R!PathTo(t, of("cap")[j].w))
        /\ {w \in Seq2Set(R!Front(ch)) : T.caps[w]} \subseteq {of("cap")[i].w : i \in 1..Len(of("cap"))}
        /\ \A i \in 1..Len(rt) : rt[i].opt => (rt[i].w = f /\ rt[i].ph = "cap")
 ChainSane ==
-  \A p \in Points :
-    LET ch == R!HitChain(T, T.lays[1], p[1], p[2]) IN
+  \A k \in 1..Len(T.lays) : \A p \in Points :
+    LET ch == R!HitChain(R!At(T, k), T.lays[k], p[1], p[2]) IN
     ch # <<>> => /\ ch[1] = 1
-                 /\ \A i \in 2..Len(ch) : T.parent[ch[i]] = ch[i - 1]
-(* hover kept by the oracle is always a chain prefix-closed set: parents of hovered widgets are hovered *)
-HoverClosed == \A w \in st.hover : w = 1 \/ T.parent[w] \in st.hover
+                 /\ \A i \in 2..Len(ch) : T.pars[k][ch[i]] = ch[i - 1]
+                 /\ \A i \in 1..Len(ch) : ~T.lays[k][ch[i]].hid
+(* hover kept by the oracle is always a chain prefix-closed set of the last drawn frame's tree *)
+HoverClosed == \A w \in st.hover : w = 1 \/ T.pars[st.lay][w] \in st.hover
 =============================================================================
